@@ -284,12 +284,15 @@ fn streams_program(mut idx: u64) -> Program {
         .map(|i| {
             let s = idx % 2 == 1;
             idx /= 2;
+            // (a tagged member is optional; tags are distinct)
+            let tagged = idx % 2 == 1;
+            idx /= 2;
             ParamM {
                 pre: Prelude::default(),
-                tag: None,
+                tag: if tagged { Some(i as i128 + 1) } else { None },
                 name: names[i].to_owned(),
                 stream: s,
-                ty: TypeM::prim("uint8"),
+                ty: if tagged { TypeM::prim("uint8").opt() } else { TypeM::prim("uint8") },
             }
         })
         .collect();
@@ -324,7 +327,7 @@ fn streams_program(mut idx: u64) -> Program {
     }
 }
 
-const STREAMS_TOTAL: u64 = 2 * 3 * 8;
+const STREAMS_TOTAL: u64 = 2 * 3 * 64;
 
 /// Every enum modifier x underlying x emptiness x field presence x value shape combination.
 fn enums_program(mut idx: u64) -> Program {
@@ -620,8 +623,8 @@ fn attrs_program(mut idx: u64) -> Program {
     ];
     let (d, args) = ATTRS[(idx % 17) as usize];
     idx /= 17;
-    let target = (idx % 20) as usize;
-    idx /= 20;
+    let target = (idx % 23) as usize;
+    idx /= 23;
     let twice = idx % 2 == 1;
     let mut attrs = vec![AttrM::new(d, args)];
     if twice {
@@ -678,6 +681,21 @@ fn attrs_program(mut idx: u64) -> Program {
                     params: vec![prm("p", t == 7, t == 16)],
                     ret: RetM::None,
                 },
+                // (an operation whose only return value is a stream; one whose last parameter is)
+                OpM {
+                    pre: pre(t == 21),
+                    idempotent: false,
+                    name: "returnsStream".into(),
+                    params: vec![],
+                    ret: RetM::Single(Box::new(ParamM { pre: pre(false), tag: None, name: String::new(), stream: true, ty: ty(false) })),
+                },
+                OpM {
+                    pre: pre(t == 22),
+                    idempotent: false,
+                    name: "takesStream".into(),
+                    params: vec![prm("x", false, false), ParamM { pre: pre(false), tag: None, name: "s".into(), stream: true, ty: ty(false) }],
+                    ret: RetM::None,
+                },
                 OpM {
                     pre: pre(t == 8),
                     idempotent: false,
@@ -721,7 +739,14 @@ fn attrs_program(mut idx: u64) -> Program {
             },
         }),
     ];
-    Program {
+    // a second file that declares no module and holds nothing but the attribute
+    let lone = FileM {
+        path: "string-1".into(),
+        file_attrs: attrs.clone(),
+        module: None,
+        defs: vec![],
+    };
+    let mut p = Program {
         files: vec![FileM {
             path: "string-0".into(),
             file_attrs: if t == 0 { attrs.clone() } else { vec![] },
@@ -731,10 +756,14 @@ fn attrs_program(mut idx: u64) -> Program {
             }),
             defs,
         }],
+    };
+    if t == 20 {
+        p.files.push(lone);
     }
+    p
 }
 
-const ATTRS_TOTAL: u64 = 17 * 20 * 2;
+const ATTRS_TOTAL: u64 = 17 * 23 * 2;
 
 fn enumerated(cx: &mut CaseCtx, input: Input, build: fn(u64) -> Program, label: &'static str) -> CaseResult {
     let mut p = build(input.index());
@@ -752,7 +781,7 @@ impl Check for C04 {
         "C04"
     }
     fn rule(&self) -> String {
-        format!("families: injected = proptest choice sequences -> well-formed program with 0..3 violations injected from a {}-entry catalogue at boundary values (the reference checker recomputes the violated rule set from the mutated model); tags3 / streams / enums / keys / attributes = bounded-exhaustive small-scope families (every tag-optional-compact assignment over <= 3 members in four hosts; every stream placement over <= 3 members; every enum modifier x underlying x emptiness x fields x value shape; every key leaf x wrapping depth <= 2 x alias x 8 positions incl. enumerator fields, parameters and return members; every attribute x 20 targets (declarations and the types written in them, incl. enumerator fields and element types) x repetition). Oracle both ways: well-formed <=> no error; every reported error code belongs to a violated rule. Non-trivial = ill-formed, or >= 2 rule-relevant features; distinct by hash of the abstract program", CATALOGUE.len())
+        format!("families: injected = proptest choice sequences -> well-formed program with 0..3 violations injected from a {}-entry catalogue at boundary values (the reference checker recomputes the violated rule set from the mutated model); tags3 / streams / enums / keys / attributes = bounded-exhaustive small-scope families (every tag-optional-compact assignment over <= 3 members in four hosts; every stream x tag placement over <= 3 members; every enum modifier x underlying x emptiness x fields x value shape; every key leaf x wrapping depth <= 2 x alias x 8 positions incl. enumerator fields, parameters and return members; every attribute x 23 targets (declarations and the types written in them, incl. enumerator fields and element types; a module-less file holding only the attribute; operations with a streamed return value / parameter) x repetition). Oracle both ways: well-formed <=> no error; every reported error code belongs to a violated rule. Non-trivial = ill-formed, or >= 2 rule-relevant features; distinct by hash of the abstract program", CATALOGUE.len())
     }
     fn assumptions(&self) -> Vec<String> {
         vec![
